@@ -64,6 +64,8 @@ def search(seed):
                 return gen.mk_case(atoms, conds, [(B, A)] + others, searched=want, tried=tried)
         if best is None:
             best = gen.mk_case(atoms, conds, qs[:3], searched="none", tried=tried)
+    if best is None:
+        best = gen.mk_case(["a", "b"], [(fm.V("b"), fm.V("a"))], [(fm.V("b"), fm.V("a"))], searched="none")
     best["tried"] = tried
     return best
 
